@@ -18,7 +18,9 @@ on the real code = oracle):
   euler     : euler2SO3 vs model and vs Rz·Ry·Rx (independent float64), euler() vs model (regular branch:
               16 eps / cos(pitch); singular branch: yaw 16 eps·pi, pitch min(4 sqrt eps, 16 eps/cos));
               oracles: euler2SO3(X.euler()) ≅ X for |sin pitch| < 1 − eps, principal ranges,
-              euler(euler2SO3(e)) = e on the principal ranges.
+              euler(euler2SO3(e)) = e on the principal ranges; inside the gimbal-lock band Rz(yaw)Ry(pitch)Rx(0)
+              reproduces X to 1.5·acos|t2| + 4 sqrt(eps); batched call = per-item call (also for euler2SO3 and the
+              matrix converters); a deterministic corpus of batches mixing locked / in-band / edge / ordinary items.
   kernel    : torch.det against the cofactor formula the model uses for the `detK` contract (64 eps·scale).
   warn      : the 4x4 last-row warning of mat2SE3/mat2Sim3 vs the model's `lastRowWarn`.
   dispatch  : unsupported shapes / ltypes raise ValueError.
@@ -40,7 +42,8 @@ META = {
             "R00=-R11) to 0/±1ulp/±1e-9; translations 0..1e3, scales log-uniform in [1e-3,1e3] plus the end points; layouts "
             "3x3/3x4/4x4; batch shapes (),(1),(2),(3),(5),(2,3),(3,2),(2,2),(1,3),(2,3,4),(0,),(2,0); float32 and float64; "
             "check on/off; (rtol,atol) from a list; perturbed matrices with deviation/tolerance on a ladder 1e-3..1e5; "
-            "Euler angles on the ladder {0,±tiny,±pi/2±d,±pi∓d, up to ±10}. Non-trivial = not the identity rotation; distinct by "
+            "Euler angles on the ladder {0,±tiny,±pi/2±d,±pi∓d, up to ±10}; a fixed corpus of 60 batches mixing exactly gimbal-locked, "
+            "in-band, band-edge (±0.1 %) and ordinary orientations in three orders and shapes (n,), (2,n/2), (4,4), both dtypes, eps 2e-4 and 1e-2. Non-trivial = not the identity rotation; distinct by "
             "(stream, type, dtype, layout, check, tolerances, shape, generator tags, mask regions hit).",
     "trusted": ["float rounding of the conversions is measured against the exact model (16 eps), not proved",
                 "torch.det is a contract parameter of the model (checked against the cofactor formula in the `kernel` stream)",
@@ -169,11 +172,6 @@ def gen_elem(rng, eps, atol):
 
 def rows_of(name, t, q, s):
     return {"SO3": q, "SE3": t + q, "RxSO3": q + [s], "Sim3": t + q + [s]}[name]
-
-
-def source_matrix(name, src, Xsrc):
-    """matrix() of the source element, always returned as (*,4,4) or (*,3,3)"""
-    return Xsrc.matrix()
 
 
 def slice_layout(M, lay):
@@ -335,6 +333,20 @@ def prep_roundtrip(ctx: Ctx, case):
                 bad = "matrix: translation column of result.matrix() differs from the input"
     if bad:
         ctx.fail(case, f"{bad} [{name} from {src}.matrix(), layout {case['lay']}, {dtype}, tags {case['tags'][:3]}]")
+    if n > 1 and not bad:
+        # a batched call must equal the per-item call
+        Mi = M.reshape((n,) + tuple(M.shape[-2:]))
+        try:
+            with warnings.catch_warnings():
+                warnings.simplefilter("ignore")
+                singles = torch.stack([call_conv(dict(case, api="direct"), Mi[i].clone()).tensor().double() for i in range(n)])
+            dbt = (singles - Yt).abs() / Yt.abs().clamp_min(1.0)
+            if not float(dbt.max()) <= 4 * eps:
+                i = int(dbt.amax(dim=-1).argmax())
+                ctx.fail(case, f"batch: {name} conversion of a batch (lshape {shape}) differs from the per-item call at item {i} by {float(dbt.max()):.3e} "
+                               f"(relative) [{dtype}, layout {case['lay']}, tags {case['tags'][:3]}]")
+        except Exception as e:
+            ctx.fail(case, f"batch: per-item {name} conversion raised {type(e).__name__} where the batched call returned: {str(e)[:100]}")
     # ---- correspondence with the model on the same float matrix
     lines = [model_line(case, M64, n)]
     for i in range(n):
@@ -681,6 +693,10 @@ def prep_euler(ctx: Ctx, case):
                 d = max(min(dd[0], abs(dd[0] - 2 * math.pi)), dd[1], min(dd[2], abs(dd[2] - 2 * math.pi)))  # roll/yaw: same angle
                 if d > tolb:
                     ctx.fail(case, f"inverse: euler(euler2SO3(e)) differs from e by {d:.3e} > {tolb:.3e} at e=({r!r},{pt!r},{y!r}) ({dtype})")
+            if n > 1:
+                one = p.euler2SO3(E.reshape(n, 3)[i].clone()).tensor().double()
+                if not float((one - Qf[i]).abs().max()) <= 4 * eps:
+                    ctx.fail(case, f"batch: euler2SO3 of a batch (lshape {shape}) differs from the per-item call at item {i} ({dtype})")
             lines.append("c11.euler2SO3 " + common.wire_list(Ef[i].tolist()))
 
         def finish(reps):
@@ -729,6 +745,26 @@ def prep_euler(ctx: Ctx, case):
             tolb = K_ROT * eps / max(cosp, 1e-3)
             if d > tolb:
                 ctx.fail(case, f"converse: euler2SO3(X.euler()) differs from X by {d:.3e} > {tolb:.3e} (16 eps / cos pitch) for q={Qf[i].tolist()} ({dtype}, eps={case['eeps']})")
+        elif abs(t2) >= 1 - case["eeps"] + 64 * eps:
+            # inside the gimbal-lock band the code sets roll = 0 and folds it into yaw: Rz(yaw)·Ry(pitch)·Rx(0) must still
+            # reproduce the rotation up to the distance delta = acos|t2| ≤ sqrt(2·eps_band) from exact lock (measured
+            # worst case 1.12·delta), exactly at lock up to the conditioning of asin at ±1 (sqrt(ulp))
+            delta = math.acos(min(1.0, abs(t2)))
+            d = U.quat_dist(Back[i].tolist(), Qf[i].tolist())
+            tols_ = 1.5 * delta + 4 * math.sqrt(eps) + K_ROT * eps
+            ctx.count("euler.oracle.singular-band")
+            if not d <= tols_:
+                ctx.fail(case, f"gimbal: inside the band |sin pitch| ≥ 1−eps, Rz(yaw)Ry(pitch)Rx(roll) of X.euler() differs from X by {d:.3e} > {tols_:.3e} "
+                               f"(1.5·acos|t2| + 4 sqrt(eps)) for q={Qf[i].tolist()}, angles {Af[i].tolist()} ({dtype}, eps={case['eeps']}, lshape {shape})")
+        # a batched call must equal the per-item call (the regular/singular decision is per item)
+        if n > 1:
+            one = p.SO3(Qt.reshape(n, 4)[i].clone()).euler(eps=case["eeps"]).double().tolist()
+            cosp_ = math.sqrt(max(1 - t2 * t2, 0.0))
+            tb = 4 * eps * math.pi / max(cosp_, math.sqrt(eps))
+            db = max(abs(a - b) for a, b in zip(one, Af[i].tolist()))
+            if not db <= tb:
+                ctx.fail(case, f"batch: euler() of a batch (lshape {shape}) differs from the per-item call by {db:.3e} at item {i}: batched {Af[i].tolist()} vs single {one} "
+                               f"for q={Qf[i].tolist()} ({dtype}, eps={case['eeps']})")
         for f in (1.0, 1 + 2.0 ** -20, 1 - 2.0 ** -20):   # regular/singular decision within rounding of the threshold
             lines.append("c11.euler " + common.wire_list([1 - (1 - case["eeps"]) * f] + Qf[i].tolist()))
 
@@ -760,8 +796,40 @@ def prep_euler(ctx: Ctx, case):
     return lines, finish
 
 
+def euler_corpus():
+    """deterministic corner corpus: batches MIXING exact gimbal lock, the inside of the band |sin pitch| ≥ 1−eps, both
+    sides of its edge, and ordinary orientations (the regular/singular decision must be taken per item)"""
+    def q_of(r, p, y, neg=False):
+        cr, sr, cp, sp, cy, sy = math.cos(r / 2), math.sin(r / 2), math.cos(p / 2), math.sin(p / 2), math.cos(y / 2), math.sin(y / 2)
+        q = [sr * cp * cy - cr * sp * sy, cr * sp * cy + sr * cp * sy, cr * cp * sy - sr * sp * cy, cr * cp * cy + sr * sp * sy]
+        return [-v for v in q] if neg else q
+    out = []
+    h = math.pi / 2
+    for eeps in (2e-4, 1e-2):
+        edge = math.acos(1 - eeps)          # distance from lock at which the band begins
+        pitches = [h, -h, h - 1e-9, -(h - 1e-6), h - 0.3 * edge, -(h - 0.9 * edge), h - 0.999 * edge, h - 1.001 * edge,
+                   -(h - 1.5 * edge), 0.3, -1.0, 0.0]
+        items = [q_of(0.7 * ((-1) ** k) * (1 + 0.37 * k), pt, 2.1 - 0.45 * k, neg=(k % 3 == 0)) for k, pt in enumerate(pitches)]
+        items += [[0.0, math.sqrt(0.5), 0.0, math.sqrt(0.5)], [0.5, 0.5, -0.5, 0.5], [0.5, -0.5, 0.5, 0.5], [0.0, 0.0, 0.0, 1.0]]
+        n = len(items)
+        orders = [list(range(n)), list(reversed(range(n))), [0, 9, 1, 10, 2, 11, 3, 12, 4, 13, 5, 14, 6, 15, 7, 8]]
+        for dtype in ("float64", "float32"):
+            for oi, order in enumerate(orders):
+                data = [items[i] for i in order]
+                for shape in ([n], [2, n // 2], [4, 4]):
+                    out.append({"stream": "euler", "mode": "q2e", "dtype": dtype, "shape": shape, "eeps": eeps,
+                                "data": U.to_dtype_exact(data, dtype)[1].tolist(), "tags": ["corpus", f"order{oi}"], "ci": 1})
+            # two-item batches: one locked, one ordinary, both orders
+            for a, b in ((0, 9), (9, 0), (1, 11), (4, 10), (10, 4), (12, 15)):
+                out.append({"stream": "euler", "mode": "q2e", "dtype": dtype, "shape": [2], "eeps": eeps,
+                            "data": U.to_dtype_exact([items[a], items[b]], dtype)[1].tolist(), "tags": ["corpus", "pair"], "ci": 1})
+    return out
+
+
 def run_euler(ctx: Ctx, n):
-    cases = [gen_euler(ctx.rng, ci) for ci in range(n)]
+    corpus = euler_corpus()
+    ctx.count("euler.corpus.mixed-regime-batches", len(corpus))
+    cases = corpus + [gen_euler(ctx.rng, ci) for ci in range(n)]
     run_stream(ctx, cases, prep_euler)
     ctx.sample({k: cases[-1][k] for k in ("mode", "dtype", "shape", "eeps")} | {"first": cases[-1]["data"][:1]}, cap=12)
 
@@ -865,9 +933,9 @@ def run_dispatch(ctx: Ctx):
 def run(ctx: Ctx):
     run_dispatch(ctx)
     run_kernel(ctx, ctx.pick(150, 1500))
-    run_roundtrip(ctx, ctx.pick(700, 9000))
-    run_reject(ctx, ctx.pick(600, 6000))
-    run_euler(ctx, ctx.pick(500, 7000))
+    run_roundtrip(ctx, ctx.pick(900, 9000))
+    run_reject(ctx, ctx.pick(750, 6000))
+    run_euler(ctx, ctx.pick(650, 7000))
     run_warn(ctx, ctx.pick(80, 800))
 
 
